@@ -181,6 +181,16 @@ def run(ctx, prog, S, M, T, hints):
                                 if isinstance(t.value, ast.Name):
                                     an = _attr_of_prop(M, ccls, t.attr)
                                     stored[an or t.attr] = (m, _is_constant(prog, f, v))
+                                    # a hand-written setter of the element class that stores into declared attributes
+                                    # (`gd.literal_value = v` -> `self.fmla = "val %d" % v`)
+                                    hs = prog.lookup_setter(ccls, t.attr) if (an is None and ccls is not None) else None
+                                    if hs is not None:
+                                        for y in walk_own(hs.node):
+                                            if isinstance(y, ast.Assign):
+                                                for t2 in y.targets:
+                                                    if isinstance(t2, ast.Attribute) and dotted(t2.value) == "self":
+                                                        an2 = _attr_of_prop(M, ccls, t2.attr)
+                                                        stored[an2 or t2.attr] = (m, _is_constant(prog, f, v) and _is_constant(prog, hs, y.value))
                                 else:
                                     calls.append((m, _is_constant(prog, f, v)))  # deeper store completes a child
                         if any(isinstance(x, ast.Name) and x.id == var for x in ast.walk(m.value)) and not \
